@@ -209,6 +209,54 @@ def machine_lane(ctx, rng, select, keys_fn, n, extra_case=None, profile=None, fl
     return done
 
 
+def big_list_lane(ctx, rng, select, keys_fn, n, extra_case=None, profile=None, sizes=(33, 257, 1001, 1500)):
+    """Long in-lists as operands of and / or / not / eq, the values that decide the rows
+    placed first, last or in the middle of the padding (a translation that chunks, sorts or
+    truncates long lists must keep both the membership and the grouping)."""
+    done = 0
+    while done < n and not ctx.out_of_time():
+        col, pool, pad0 = rng.choice([("a", [-3, -1, 0, 1, 2, 7], 1000), ("b", [-1, 0, 1, 2, 7], 5000)])
+        size = rng.choice(sizes)
+        hits = rng.sample(pool, rng.randint(1, 2))
+        pad = [pad0 + i for i in range(size - len(hits))]
+        where = rng.choice(["first", "last", "middle", "split"])
+        if where == "first":
+            vals = hits + pad
+        elif where == "last":
+            vals = pad + hits
+        elif where == "middle":
+            vals = pad[: len(pad) // 2] + hits + pad[len(pad) // 2:]
+        else:
+            vals = hits[:1] + pad + hits[1:]
+        inl = ("cmp", "in", T.ident(col), ("list", tuple(T.lit("int", str(v)) for v in vals)))
+        other_col = "b" if col == "a" else "a"
+        sib = ("cmp", rng.choice(["eq", "gt", "le"]), T.ident(other_col), T.lit("int", rng.choice(["0", "1", "2"])))
+        shape = rng.choice(["and-r", "and-l", "or-r", "or-l", "not", "not-and", "alone", "and-and"])
+        t = {"and-r": ("bool", "and", sib, inl), "and-l": ("bool", "and", inl, sib),
+             "or-r": ("bool", "or", sib, inl), "or-l": ("bool", "or", inl, sib),
+             "not": ("un", "not", inl), "not-and": ("bool", "and", ("un", "not", inl), sib),
+             "alone": inl,
+             "and-and": ("bool", "and", ("bool", "and", sib, inl), ("cmp", "ne", T.ident("c"), T.lit("int", "7")))}[shape]
+        if profile is not None and not scalar.conforms(t, profile):
+            continue
+        done += 1
+        ctx.count("big_in_list_filters")
+        ctx.cls("big-in-list:%d" % size)
+        ctx.count("evaluations")
+        rows = R.rows_for(["a", "b", "c"], rng, 150)
+        prob, detail, flags, nontrivial = compare(t, rows, select)
+        ctx.count("rows_compared", len(rows))
+        if nontrivial:
+            ctx.seen(["big-in", col, size, where, shape])
+        if prob is not None:
+            case = {"shape": shape, "column": col, "list_size": size, "deciding_values": hits,
+                    "placed": where, "sibling": to_text(sib), "term": t}
+            ctx.fail(case, prob, expected="exactly the rows for which the filter is true",
+                     observed=detail, keys=keys_fn(t, flags, prob), cls="big-in-list",
+                     sig=[prob, "big-in-list", shape])
+    return done
+
+
 def render_rows(rows):
     return [{k: (str(v) if v is not None and not isinstance(v, (int, float, str, bool)) else v)
              for k, v in r.items()} for r in rows]
